@@ -125,8 +125,8 @@ func CollectFormals(formals *lisp.LVal, defs map[string]bool) {
 }
 
 // PackageNameArg extracts a package name from a use-package or in-package
-// argument. Handles quoted symbols ('testing), bare symbols (testing), and
-// strings ("testing").
+// argument. Handles quoted symbols ('testing, (quote testing)), bare symbols
+// (testing), and strings ("testing").
 func PackageNameArg(arg *lisp.LVal) string {
 	if arg == nil {
 		return ""
@@ -136,6 +136,11 @@ func PackageNameArg(arg *lisp.LVal) string {
 	}
 	if arg.Type == lisp.LSExpr && arg.IsQuoted() && len(arg.Cells) > 0 && arg.Cells[0].Type == lisp.LSymbol {
 		return arg.Cells[0].Str
+	}
+	// The spelled-out form of the quote: (in-package (quote name)).
+	if arg.Type == lisp.LSExpr && !arg.IsQuoted() && len(arg.Cells) == 2 && arg.Cells[0].Type == lisp.LSymbol &&
+		arg.Cells[0].Str == "quote" && arg.Cells[1].Type == lisp.LSymbol {
+		return arg.Cells[1].Str
 	}
 	return ""
 }
